@@ -3,6 +3,7 @@
    Gaussian density (Coq reals); BIC parameter count. *)
 From Coq Require Import List Arith Lia Ring ZArith.
 From NV.Lib Require Import RingMat.
+From NV.Generated Require Import GmmFrags.
 From NV.C13 Require Import Model.
 Import ListNotations.
 
@@ -49,16 +50,12 @@ Section QF.
 End QF.
 
 (* ------------------------------------------------------------------ BIC *)
-Lemma bic_diag_count k dim : bic_eta_diag_code k dim = free_params_diag k dim.
-Proof. unfold bic_eta_diag_code, free_params_diag. ring. Qed.
+From Coq Require Import QArith Lqa.
+Lemma bic_diag_count (k dim : Q) : (src_bic_eta_diag k dim == free_params_diag k dim)%Q.
+Proof. unfold src_bic_eta_diag, free_params_diag. ring. Qed.
 
-Lemma bic_full_count_iff k dim : (k <> 0)%Z ->
-  (bic_eta2_full_code k dim = free_params2_full k dim <-> dim = 1%Z).
-Proof.
-  intros Hk. unfold bic_eta2_full_code, free_params2_full. split; intros H.
-  - assert (E : (k * (1 - dim) = 0)%Z) by lia. apply Z.mul_eq_0 in E. lia.
-  - subst. ring.
-Qed.
+Lemma bic_full_count (k dim : Q) : (src_bic_eta_full k dim == free_params_full k dim)%Q.
+Proof. unfold src_bic_eta_full, free_params_full. field. Qed.
 
 (* ------------------------------------------------------------------ reals *)
 From Coq Require Import Reals Lra.
